@@ -760,6 +760,9 @@ GRAPHS = {
     "for loop": {"i": (["int 0", "store 1"], ["h"]), "h": (["load 1"], ["b", "x"]), "b": (["int 5", "pop"], ["st"]), "st": (["load 1", "store 1"], ["h"]), "x": ([], ["r"]), "r": (["int 1", "return_"], [])},
     "early return arm": {"c": (["int 1"], ["r1", "n"]), "r1": (["int 0", "return_"], []), "n": ([], ["x"]), "x": (["int 1", "return_"], [])},
     "empty block chain": {"a": ([], ["b"]), "b": ([], ["c"]), "c": ([], ["d"]), "d": (["int 1", "return_"], [])},
+    # one expression used in two arms at different depths: two blocks that compare equal are still two parents of the join
+    "equal arms, one behind an empty block": {"c1": (["int 1"], ["c2", "s2"]), "c2": (["int 2"], ["s1", "o"]), "s1": (["int 9", "pop"], ["e1"]), "e1": ([], ["j"]), "o": (["int 8", "pop"], ["j"]), "s2": (["int 9", "pop"], ["j"]), "j": (["int 1", "return_"], [])},
+    "equal arms, both behind empty blocks": {"c1": (["int 1"], ["s1", "s2"]), "s1": (["int 9", "pop"], ["e1"]), "e1": ([], ["j"]), "s2": (["int 9", "pop"], ["e2"]), "e2": ([], ["j"]), "j": (["int 1", "return_"], [])},
 }
 
 
